@@ -28,6 +28,9 @@ def run(chk):
     chk.rule('R2.7', "reader/writer end to end: the interior row is proportional to the jump S''(x_i - 0) - S''(x_i + 0) computed from the neighbouring pieces "
                      "exactly as the evaluation code reads them (piece formula composed with calc_coefficients)")
     S.check_rows_against_reader(chk, lib, 'R2.7', 'R2.7', do_boundary=False)
+    chk.rule('R2.8', "the 3-point NotAKnot system (whole-set or spelled as Mixed{NotAKnot, NotAKnot}) is uniquely solvable: its determinant is a polynomial of one sign in the interval lengths "
+                     "(a singular system would make every value NaN, so the curve would not pass through the data)")
+    S.check_three_point(chk, lib, 'R2.8', det_only=True)
     chk.rule('R2.6', "Periodic: the rows of the condensed cyclic system (row 0, the last condensed row whose k[n-2] coefficient sits in the second right-hand side, the closing row) are "
                      "the same C2 stencil instantiated cyclically, and the condensation is consistent - the C2 conditions at the knots next to the wrap-around")
     S.check_periodic(chk, lib, 'R2.6', 'R2.6')
